@@ -148,8 +148,21 @@ impl Cfg {
             .cloned()
             .collect::<HashSet<LabelStringToken>>();
 
-        if !undefined_labels.is_empty() {
-            return Err(Box::new(CfgError::LabelsNotDefined(undefined_labels)));
+        // Report the error at the first use of an undefined label in program
+        // order (the iteration order of the set is not stable)
+        let first_undefined = old_nodes
+            .iter()
+            .filter_map(|node| {
+                node.calls_to()
+                    .or_else(|| node.jumps_to())
+                    .or_else(|| node.reads_address_of())
+            })
+            .find(|label| undefined_labels.contains(label));
+        if let Some(first_undefined) = first_undefined {
+            return Err(Box::new(CfgError::LabelsNotDefined(
+                undefined_labels,
+                first_undefined,
+            )));
         }
 
         // Code always begins in the text segment if it is not defined.
